@@ -135,6 +135,21 @@ theorem totp_next_spec (st : TotpSt) (pre : List (Call TotpOp)) (t : Nat) :
 theorem get_observational_totp (st : TotpSt) : GetObservational totpB st :=
   getObservational_of_getId totpB (fun s g _ => by cases g <;> rfl) st
 
+/-- non-vacuity.  (Evaluating belt-HMAC in the kernel takes minutes, so the examples observe what does not need the
+MAC value: a 6-digit password is never the empty string — the verdict `false` is decided structurally — and the
+symbolic instances below cover the successful verdict.) -/
+example :
+    let st := totpStart 6 [1, 2, 3]
+    let s : List (Call TotpOp) := [.op (.verify 5 []), .reloc, .op (.next 5), .op (.next 6)]
+    (outs totpB st s)[0]? = some (.verdict false) ∧ (outs totpB st s)[1]? = some .none ∧
+    (after totpB st s).digit = 6 := by decide +kernel
+/-- the password of `StepR(t)` verifies at time `t`, in any session -/
+example (st : TotpSt) (pre : List (Call TotpOp)) (t : Nat) :
+    (totpB.step (after totpB st pre) (.verify t (C03.totpStepR st.digit st.keySt t))).2 = .verdict true := by
+  rw [totp_state_const]
+  show Out.verdict (C03.totpStepV _ _ _ _) = _
+  simp only [C03.totpStepV, decide_true]
+
 /-! ### HOTP -/
 
 /-- the `k`-th `StepR` of a run of `StepR` calls returns the one-shot password for the counter advanced `k` times
@@ -168,6 +183,27 @@ theorem hotp_failed_verify_observational (st : C03.HotpSt) (pre post : List (Cal
     outs hotpB (after hotpB st (pre ++ [.op (.verify o)])) post = outs hotpB (after hotpB st pre) post :=
   outs_skip hotpB st pre post (.verify o) (hotp_verify_fail o _ h)
 
+/-- non-vacuity: `StepR`, a failing `StepV` (empty password against 6 digits), relocation, `StepG`, `StepR`, `StepG`:
+the failing `StepV` did not advance the counter -/
+example :
+    let st := C03.hotpStart 6 [1, 2, 3]
+    let s : List (Call HotpOp) := [.op .next, .op (.verify []), .reloc, .op .get, .op .next, .op .get]
+    (C03.hotpStepV [] (after hotpB st [.op .next])).2 = false ∧
+    (outs hotpB st s)[1]? = some (.verdict false) ∧
+    (outs hotpB st s)[3]? = some (.data [0, 0, 0, 0, 0, 0, 0, 1]) ∧
+    (outs hotpB st s)[5]? = some (.data [0, 0, 0, 0, 0, 0, 0, 2]) ∧
+    Nat.repeat C03.botpCtrNext 3 [0, 0, 0, 0, 0, 0, 0xFF, 0xFE] = [0, 0, 0, 0, 0, 1, 0, 1] := by decide +kernel
+/-- both verdicts occur from EVERY state: the password of `StepR` verifies, a longer one does not -/
+example (st : C03.HotpSt) : (C03.hotpStepV (C03.hotpStepR st).2 st).2 = true := by
+  simp only [C03.hotpStepV, if_true]
+example (st : C03.HotpSt) : (C03.hotpStepV ((C03.hotpStepR st).2 ++ [0]) st).2 = false := by
+  have hne : ¬ (C03.hotpStepR st).2 = (C03.hotpStepR st).2 ++ [0] := by
+    intro h
+    have := congrArg List.length h
+    simp only [List.length_append, List.length_cons, List.length_nil] at this
+    omega
+  simp only [C03.hotpStepV, if_neg hne]
+
 /-! ### OCRA -/
 
 /-- the `k`-th `StepR(q_k, t_k)` of a run of `StepR` calls returns the one-shot password for the counter advanced
@@ -199,5 +235,30 @@ theorem ocra_failed_verify_observational (st : C03.OcraSt) (pre post : List (Cal
     (o : Bytes) (h : (C03.ocraStepV o q t (after ocraB st pre)).2 = false) :
     outs ocraB (after ocraB st (pre ++ [.op (.verify q t o)])) post = outs ocraB (after ocraB st pre) post :=
   outs_skip ocraB st pre post (.verify q t o) (ocra_verify_fail o q t _ h)
+
+/-- non-vacuity: a state as `botpOCRAStart("OCRA-1:HOTP-HBELT-6:C-QN08", key)` makes it (6 digits, 8-octet counter);
+`StepR`, a failing `StepV`, `StepG`, `StepR`, `StepG`: the failing `StepV` restored the counter; and a suite without
+counter, where `StepR` leaves the counter alone -/
+example :
+    let st : C03.OcraSt := { digit := 6, ctrLen := 8, qType := 78, qMax := 8, keySt := C03.Belt.hmacStart [1, 2, 3] }
+    let st' : C03.OcraSt := { digit := 6, ctrLen := 0, qType := 78, qMax := 8, keySt := C03.Belt.hmacStart [1, 2, 3] }
+    let s : List (Call OcraOp) := [.op (.next [1, 2] 0), .op (.verify [3] 0 []), .reloc, .op .get, .op (.next [4] 0),
+      .op .get]
+    (C03.ocraStepV [] [3] 0 (after ocraB st [.op (.next [1, 2] 0)])).2 = false ∧
+    (outs ocraB st s)[1]? = some (.verdict false) ∧
+    (outs ocraB st s)[3]? = some (.data [0, 0, 0, 0, 0, 0, 0, 1]) ∧
+    (outs ocraB st s)[5]? = some (.data [0, 0, 0, 0, 0, 0, 0, 2]) ∧
+    (outs ocraB st' s)[5]? = some (.data [0, 0, 0, 0, 0, 0, 0, 0]) ∧
+    ocraCtrAt st 2 = [0, 0, 0, 0, 0, 0, 0, 2] ∧ ocraCtrAt st' 2 = [0, 0, 0, 0, 0, 0, 0, 0] := by decide +kernel
+example (st : C03.OcraSt) (q : Bytes) (t : Nat) : (C03.ocraStepV (C03.ocraStepR q t st).2 q t st).2 = true := by
+  simp only [C03.ocraStepV, if_true]
+example (st : C03.OcraSt) (q : Bytes) (t : Nat) :
+    (C03.ocraStepV ((C03.ocraStepR q t st).2 ++ [0]) q t st).2 = false := by
+  have hne : ¬ (C03.ocraStepR q t st).2 = (C03.ocraStepR q t st).2 ++ [0] := by
+    intro h
+    have := congrArg List.length h
+    simp only [List.length_append, List.length_cons, List.length_nil] at this
+    omega
+  simp only [C03.ocraStepV, if_neg hne]
 
 end Bee2V.C10
